@@ -11,6 +11,7 @@ EXPLANATION = (
     "declared type; (F6-to_v1) the pre-1.0 -> 1.0.0 upgrade keeps each line's kind (target class is a subclass of the "
     "guard class) and covers every v0 parser class; (F6-parsers) every parsable class is reachable from its version's "
     "parser list, entries distinct; (GATE) version gates present."
+    ' (F10-conv) conversion to 1.0.0 rounds every field that a pre-1.0 version stores as float before int().'
 )
 NOT_DECIDED = [
     "value-level round trips: four-decimal rounding, fraction bounding, additive durations, key-name spellings (run-time values)",
